@@ -53,10 +53,14 @@ json generate(uint64_t seed, uint64_t idx, int tier)
 	ag.hostile_strings = true;
 	int maxops = tier ? 20 : 12;
 	if (!instances) {
+		// one party in four installs no error function of its own: its diagnostics go to stderr, not to the other's function
+		bool quiet1 = r.chance(1, 4);
 		for (int cl = 0; cl < 2; cl++) {
 			json init = step(cl, "init", 0);
 			init["flags"] = flags;
 			init["keep"] = 1;
+			if (cl == 1 && quiet1)
+				init["noerrfn"] = 1;
 			steps.push_back(init);
 		}
 		if (r.chance(1, 4)) {
@@ -131,6 +135,8 @@ json generate(uint64_t seed, uint64_t idx, int tier)
 				steps.push_back(step(cl, "free", 0));
 				json init = step(cl, "init", 0);
 				init["flags"] = flags;
+				if (cl == 1 && quiet1)
+					init["noerrfn"] = 1;
 				steps.push_back(init);
 			}
 		}
